@@ -112,9 +112,18 @@ def q_custom(B, W, ci):
     return Fr(sum(Fr(B[i][j]) for i, j in _same_pairs(ci))) / s
 
 
+def case_W(case):
+    """the weights the routine really sees: the integer matrix times the exact dyadic factor 2**scale (as Fractions)"""
+    e = case.get('scale')
+    if not e:
+        return case['W']
+    c = Fr(2) ** e
+    return [[Fr(x) * c for x in row] for row in case['W']]
+
+
 def true_q(case, ci):
     """the quality function the routine of `case` claims to optimise / report, evaluated on partition ci"""
-    r = case['routine']; W = case['W']; g = Fr(case['gamma'])
+    r = case['routine']; W = case_W(case); g = Fr(case['gamma'])
     if r in UND:
         return q_und(W, ci, g)
     if r in DIR:
@@ -249,6 +258,12 @@ def trace_spectral(bct, case, t=10.0):
 
 def invoke(bct, case, seed, ci0, hierarchy=False, t=6.0, rec=None):
     r = case['routine']; A = np.array(case['W'], dtype=float); g = float(Fr(case['gamma']))
+    if case.get('scale'):
+        A = A * 2.0 ** case['scale']          # exact: power of two
+    if case.get('variant') == 'int64':
+        A = np.array(case['W'], dtype=np.int64)
+    elif case.get('variant') == 'fortran':
+        A = np.asfortranarray(A)
     rec = rec if rec is not None else Rec2(seed)
     ci = None if ci0 is None else np.array(ci0, dtype=int)
     f = getattr(bct, r)
@@ -285,6 +300,10 @@ def _levels(out, hierarchy):
 
 def cond_of(case, level=None, nlevels=None):
     c = {'routine': case['routine'], 'asymmetric': not is_sym(case['W']), 'opt': case.get('opt')}
+    if case.get('scale'):
+        c['scale'] = case['scale']
+    if case.get('variant'):
+        c['variant'] = case['variant']
     if level is not None:
         c['level_ge2'] = level >= 2
     if nlevels is not None:
@@ -382,7 +401,7 @@ def run_case(case):
         Q0 = true_q(case, start)
         res['Q0'] = str(Q0)
         top = Qs[-1]
-        if float(top) < float(Q0) - TOL and top < Q0 - Fr(1, 10 ** 9):
+        if top < Q0 - Fr(1, 10 ** 9) * max(1, abs(Q0)):
             F.append(('not-worse-than-start', {'Q_start': float(Q0), 'Q_returned': float(top), 'start': start,
                                                'returned': levels[-1][0], 'levels': len(levels)}, cond_of(case, nlevels=len(levels))))
         if hier and len(levels) > 1:
@@ -393,7 +412,7 @@ def run_case(case):
                     F.append(('hierarchy-increasing', {'Q_levels': [None if x is None else float(x) for x in Qs], 'q_reported': [l[1] for l in levels],
                                                        'ci_levels': [l[0] for l in levels]}, cond_of(case, nlevels=len(levels))))
                     break
-        if hier and levels and Qs[0] is not None and Qs[0] < Q0 - Fr(1, 10 ** 9):
+        if hier and levels and Qs[0] is not None and Qs[0] < Q0 - Fr(1, 10 ** 9) * max(1, abs(Q0)):
             F.append(('not-worse-than-start', {'Q_start': float(Q0), 'Q_level1': float(Qs[0]), 'level': 1}, cond_of(case, nlevels=len(levels))))
         # feed the routine's own output back as the start
         if r in TAKES_CI and r != 'modularity_probtune_und_sign':
@@ -403,7 +422,7 @@ def run_case(case):
                 res['feedback'] = (ci3, q3)
                 if labels_ok(ci3, n):
                     Q3 = true_q(case, [int(x) for x in ci3])
-                    if Q3 < top - Fr(1, 10 ** 9):
+                    if Q3 < top - Fr(1, 10 ** 9) * max(1, abs(top)):
                         F.append(('feedback-not-lower', {'Q_first': float(top), 'Q_second': float(Q3), 'first': levels[-1][0], 'second': ci3},
                                   cond_of(case)))
                     if not close(q3, Q3):
@@ -597,6 +616,7 @@ WITNESSES = [
 
 
 CROSS_GAMMAS = ['3/4', '4/5', '6/5', '5/4', '13/10']
+SCALES = [-30, -40, 20]     # W is multiplied by 2**e
 
 
 def cross_sources(r, opt):
@@ -639,6 +659,12 @@ def gen_cases(rs, tier, routines=None):
         W = to_list(A)
         c = {'routine': routine, 'W': W, 'gamma': kw.pop('gamma', None) or gam(), 'opt': opt, 'ci0': ci0, 'seed': rnd_seed()}
         c.update(kw)
+        u = rs.rand()
+        if not c.get('scale') and not c.get('malformed'):
+            if u < .06:
+                c['variant'] = 'int64'        # integer dtype input
+            elif u < .12:
+                c['variant'] = 'fortran'      # column-major memory order
         cases.append(c)
 
     def graph_for(routine, n, opt=None):
@@ -746,6 +772,62 @@ def gen_cases(rs, tier, routines=None):
                     if not valid(r, A, opt) or not valid(src['routine'], A, src.get('opt')):
                         continue
                     add(r, A, opt, None, gamma=g, start_from=dict(src, seed=rnd_seed()))
+    # (g) scale axis: the same integer network times an exact dyadic factor.  Q is invariant under W -> cW, the code's absolute
+    #     constants (1e-10 gain threshold, np.allclose / np.min(W) < -1e-10 style tests) are not: moves may legitimately differ at
+    #     tiny scales, so these runs are judged by the predicates only (no move-by-move replay)
+    for (r, opt) in variants:
+        if opt == 'potts':
+            continue                      # requires a 0/1 matrix
+        ntr = (10 if r == 'community_louvain' else 3) if not big else 60
+        for e in SCALES:
+            if r == 'modularity_louvain_dir' and e < 0:
+                continue      # open finding D6 is accepted only where the as-written model reproduces the run, which needs the replay
+            for _ in range(ntr):
+                n = int(rs.randint(4, 13))
+                A = graph_for(r, n, opt)
+                if not valid(r, A, opt):
+                    continue
+                extra = {'B': custom_B(n)} if opt == 'custom' else {}
+                if r == 'modularity_probtune_und_sign':
+                    extra['p'] = '1/4'
+                ci0 = None
+                if r in TAKES_CI and rs.rand() < .7:
+                    k = int(rs.randint(1, n + 1))
+                    ci0 = encode_partition(rs, _rg_canon(rs.randint(0, k, size=n).tolist()))
+                if r == 'modularity_louvain_dir':
+                    extra['replay_ok'] = True     # at 2**20 every float operation scales exactly and no gain lies in (1e-10/c, 1e-10]
+                add(r, A, opt, ci0, scale=e, **extra)
+    # (h) the window in which absolute tolerances bite: weights below ~1e-8 (np.allclose's atol, 'is it symmetric?' style tests)
+    #     but gains still above the 1e-10 move threshold - directed networks times 2**-29 .. 2**-32, objectives whose matrix
+    #     scales with the weights
+    for (r, opt) in variants:
+        if not ((r == 'community_louvain' and opt == 'modularity') or r in ('modularity_finetune_dir', 'modularity_finetune_und', 'modularity_louvain_und')):
+            continue
+        for _ in range((160 if r == 'community_louvain' else 12) if not big else 800):
+            n = int(rs.randint(5, 13)); wmax = int(rs.choice([1, 3, 5])); dens = float(rs.choice([.3, .5, .7]))
+            if r in UND:
+                A = g_und(rs, n, dens, wmax)
+            else:
+                A = g_dir_adversarial(rs, n, wmax) if rs.rand() < .35 else g_dir(rs, n, dens, wmax)
+            if not valid(r, A, opt):
+                continue
+            ci0 = None
+            if r in TAKES_CI and rs.rand() < .6:
+                k = int(rs.randint(1, n + 1))
+                ci0 = encode_partition(rs, _rg_canon(rs.randint(0, k, size=n).tolist()))
+            add(r, A, opt, ci0, scale=int(rs.choice([-29, -30, -31, -32])))
+    for r in GIVEN:
+        if routines and r not in routines:
+            continue
+        for e in SCALES:
+            for _ in range(4 if not big else 40):
+                n = int(rs.randint(3, 11))
+                opt = QTYPES[rs.randint(5)] if r == 'modularity_und_sign' else None
+                A = graph_for(r, n, opt)
+                if not valid(r, A, opt):
+                    continue
+                k = int(rs.randint(1, n + 1))
+                add(r, A, opt, encode_partition(rs, _rg_canon(rs.randint(0, k, size=n).tolist())), gamma=('1' if r == 'modularity_und_sign' else None), scale=e)
     # (c) modularity_und/_dir/_und_sign with a given partition, and their own spectral partition (kci=None)
     if not routines or any(g in routines for g in GIVEN):
         for r in GIVEN:
@@ -867,7 +949,13 @@ def run_check(ck, preds):
             continue
         failed = {p for p, _, _ in r['fails']}
         # model: definition + coded closed form for every returned pair that passed the oracle
-        if not failed & {'labels-1..k', 'q-equals-Q', 'given-partition-q'}:
+        if c.get('scale'):
+            ck.count('scaled_cases'); ck.count('scale=2^%d' % c['scale'])
+        if c.get('variant'):
+            ck.count('variant:' + c['variant'])
+        # (for a scaled network the model keeps the unscaled rationals: Q is scale invariant - `Q_scale_invariant` - except for a
+        #  custom objective matrix, whose q = sum(B)/s scales with 1/c)
+        if not failed & {'labels-1..k', 'q-equals-Q', 'given-partition-q'} and not (c.get('scale') and c.get('opt') == 'custom'):
             for h, (ci, q) in enumerate(r['levels']):
                 qlines.append(q_line(c, c['ci0'] if (c['routine'] in GIVEN and c.get('ci0') is not None) else ci)); qidx.append((n_, h))
         if c.get('start_origin'):
@@ -876,7 +964,9 @@ def run_check(ck, preds):
             # spectral path: the model bisects with the recorded eigen-solver decisions
             slines.append('spectral kind=%s n=%d W=%s gamma=%s oracle=%s' % (kind_of(c), len(c['W']), rat_list(c['W']), c['gamma'], ','.join(r['oracle']) or '-'))
             sidx.append(n_)
-        if c['routine'] in REPLAY_OPS and _dyadic(c['gamma']):
+        if c['routine'] in REPLAY_OPS and c.get('scale') and not c.get('replay_ok'):
+            ck.count('replay_skipped_scaled')     # absolute thresholds are not scale invariant: predicates only
+        elif c['routine'] in REPLAY_OPS and _dyadic(c['gamma']):
             rlines.append(replay_line(c, r)); ridx.append(n_)
         elif c['routine'] in REPLAY_OPS:
             ck.count('replay_skipped_nondyadic_gamma')   # float gamma is not the rational the model would use: oracle + q-line only
